@@ -40,6 +40,19 @@ Theorem C08_directory_reply_refuted : exists ops c user rd x d,
   In x (directory_reply (run ops) rd) /\ In d (listed (run ops)) /\ In x (ditems d) /\ dir_locked (friends c) d user = true.
 Proof. exact directory_reply_refuted. Qed.
 
+(* update_shared_directory(dir, share_mode, users) takes effect for every value given, including the EMPTY user list (None =
+   keep): afterwards a user removed from the list is locked out of a users-only directory *)
+Theorem C08_update_takes_effect : forall s p m us d c user, find_listed p (listed s) = Some d ->
+  exists d', find_listed p (listed (step s (Update p m us))) = Some d' /\
+    dusers d' = (match us with Some u => u | None => dusers d end) /\
+    dmode d' = (match m with Some m' => m' | None => dmode d end) /\
+    (dmode d' = Users -> mem_str user (dusers d') = false -> dir_locked (friends c) d' user = true).
+Proof.
+  intros s p m us d c0 user H. destruct (update_effect s p m us d H) as [d' [F [U [M _]]]].
+  exists d'. split; [exact F|]. split; [exact U|]. split; [exact M|].
+  intros Hm Hu. rewrite dir_locked_eq. rewrite Hm, Hu. reflexivity.
+Qed.
+
 (* no search reply goes to a user blocked for searches (or without a session) *)
 Theorem C08_search_block : forall s c user qs,
   mem_str user (blocked_searches c) = true \/ has_session c = false -> search_reply s c user qs = None.
